@@ -299,7 +299,21 @@ async fn drive(case: &DCase, p: &Params, addr: &str, node: &Node, admin: &iggy::
     let mut instances = case.stops.clone();
     instances.push(255); // the last instance drains
     for (k, stop) in instances.iter().enumerate() {
-        let committed = admin.get_consumer_offset(&cons_ident, &s1, &t1id, Some(pid)).await.ok().flatten().map(|o| o.stored_offset);
+        // (the previous instance stores its last offsets in a background task after it was dropped: read until
+        // two reads 60 ms apart agree, at most 3 s - on a loaded machine 120 ms are not always enough)
+        let mut committed = admin.get_consumer_offset(&cons_ident, &s1, &t1id, Some(pid)).await.ok().flatten().map(|o| o.stored_offset);
+        if k > 0 {
+            let until = std::time::Instant::now() + Duration::from_secs(3);
+            loop {
+                tokio::time::sleep(Duration::from_millis(60)).await;
+                let again = admin.get_consumer_offset(&cons_ident, &s1, &t1id, Some(pid)).await.ok().flatten().map(|o| o.stored_offset);
+                if again == committed || std::time::Instant::now() > until {
+                    committed = again;
+                    break;
+                }
+                committed = again;
+            }
+        }
         let strat = match case.polling % 3 {
             0 => PollingStrategy::next(),
             1 => PollingStrategy::offset(0),
@@ -333,10 +347,23 @@ async fn drive(case: &DCase, p: &Params, addr: &str, node: &Node, admin: &iggy::
         consumer.init().await.map_err(|e| fail("consumer-init", format!("instance {k}: {e}")).tag(if k > 0 { "recreated" } else { "first" }))?;
         let mut mine: Vec<u64> = vec![];
         let limit = if *stop == 255 { usize::MAX } else { *stop as usize };
+        let mut idle_windows = 0;
         while mine.len() < limit {
             let next = tokio::time::timeout(Duration::from_millis(300), consumer.next()).await;
             match next {
-                Err(_) => break, // drained
+                Err(_) => {
+                    // 300 ms without a message: drained - unless messages it still owes are outstanding, then the
+                    // machine may simply be slow: up to 6 s of silence are granted before the verdict is left to the clauses below
+                    let owed_from = if case.polling % 3 == 0 { committed.map(|c| c + 1).unwrap_or(0) } else { 0 };
+                    let reached_end = owed_from as usize >= log.len() || mine.last().map(|l| *l as usize + 1 >= log.len()).unwrap_or(false);
+                    idle_windows += 1;
+                    // (only with `next` polling does a consumer owe the whole rest of the partition; `first` and
+                    // `offset(0)` re-read the same batch by design)
+                    if reached_end || idle_windows >= 20 || case.polling % 3 != 0 {
+                        break;
+                    }
+                    continue;
+                }
                 Ok(None) => break,
                 Ok(Some(Err(e))) => return Err(fail("consumer-error", format!("instance {k}: {e}"))),
                 Ok(Some(Ok(rm))) => {
@@ -353,6 +380,7 @@ async fn drive(case: &DCase, p: &Params, addr: &str, node: &Node, admin: &iggy::
                         }
                     }
                     mine.push(o);
+                    idle_windows = 0;
                     // polling by offset(0) / first re-reads from the start by design, so later instances may only stay quiet
                     // within themselves (the resume clause is for `next`)
                 }
